@@ -82,3 +82,22 @@ Theorem C05_written_statements_are_accepted :
     parse_stmts fuel (pws er ws ++ rest) <> None.
 Proof. intros er ewf H1 H2 H3 H4 ws rest fuel Hw Hs Hf. rewrite (parse_written er ewf H1 H2 H3 H4 ws rest fuel Hw Hs Hf). discriminate. Qed.
 Print Assumptions C05_written_statements_are_accepted.
+
+(* whole scripts: file-level hashtags, one or more nodes (each with at least one header - a key with or
+   without a value - and a well-formed written body), end of input.  The model of tree.FromReader accepts
+   every such token sequence and returns the dialogue it stands for: headers as a map (last value of a key,
+   in key order), bodies by [meaning].  No fuel appears: the fuel the model gives its parsers
+   (2 * tokens + 4 per body, tokens + 1 for the node list) is proved sufficient (size_tokens). *)
+From YS Require Import Proofs.StmtParserTop.
+
+Theorem C05_every_written_script_is_loaded :
+  forall (er : expr -> list (kind * str)) (ewf : expr -> Prop),
+  (forall e, Forall is_etok (er e)) ->
+  (forall e, ewf e -> parse_expression (fst (take_etoks (er e))) = Some e) ->
+  (forall f args, ewf (ECall f args) -> parse_call_toks (fst (take_etoks (er (ECall f args)))) = Some (f, args)) ->
+  (forall v, ewf v -> (exists a, v = expr_of_atom a) \/ (exists f args, v = ECall f args) ->
+             parse_value_toks (fst (take_etoks (er v))) = Some v) ->
+  forall tags ns, ns <> [] -> Forall (node_ok er ewf) ns ->
+    from_reader 0 (p_script er tags ns) = Some (map mean_node ns).
+Proof. exact written_script_is_loaded. Qed.
+Print Assumptions C05_every_written_script_is_loaded.
